@@ -365,8 +365,11 @@ impl<T: Read + Seek> Iterator for PointCloudReaderSimple<'_, T> {
         }
 
         // Refill queues with raw point values
-        if let Err(err) = self.queue_reader.advance() {
-            return Some(Err(err));
+        // (in some corner cases more than one advance is required)
+        while self.queue_reader.available() < 1 {
+            if let Err(err) = self.queue_reader.advance() {
+                return Some(Err(err));
+            }
         }
 
         // Read raw point values as simple point, add to buffer
